@@ -346,6 +346,28 @@ pub fn run_cli_env(case: &CliCase, entropy: u128, sandbox: &Path, expected: Opti
         }
         OutState::IsDirectory => std::fs::create_dir_all(&outp).map_err(|e| e.to_string())?,
     }
+    // File times are an input as well (make-style "is it up to date?" logic reads them) and the kernel's clock is
+    // not under our control: pin them. Input: a fixed instant; a pre-existing output: one hour older, the same
+    // instant, or one hour newer, chosen by the case's entropy.
+    {
+        use std::time::{Duration, SystemTime};
+        let t0 = SystemTime::UNIX_EPOCH + Duration::from_secs(1_600_000_000);
+        if let InState::Present(_) = &case.input {
+            if let Ok(f) = std::fs::OpenOptions::new().write(true).open(&inp) {
+                let _ = f.set_modified(t0);
+            }
+        }
+        if matches!(case.output, OutState::Existing(_) | OutState::ExistingLikeExpected(_)) {
+            let t = match case.entropy % 3 {
+                0 => t0 - Duration::from_secs(3600),
+                1 => t0,
+                _ => t0 + Duration::from_secs(3600),
+            };
+            if let Ok(f) = std::fs::OpenOptions::new().write(true).open(&outp) {
+                let _ = f.set_modified(t);
+            }
+        }
+    }
     let before = snap(&outp);
     let so = sandbox.join(".stdout");
     let se = sandbox.join(".stderr");
